@@ -5,7 +5,7 @@ import os
 from common import Inconclusive, finish, log
 from codec_common import iter_events, judge_traces, require, selftest_corruption, tlc_cases, write_shards
 
-KINDS = ["tx", "txs", "header", "block", "group"]
+KINDS = ["tx", "txs", "header", "block", "group", "member"]
 
 
 def gen_cfg(quick):
@@ -23,7 +23,7 @@ CHECK_DEADLOCK FALSE
 def compact(e):
     out = {k: e[k] for k in ("event", "kind", "src") if k in e}
     if e["event"] == "RoundTrip":
-        out.update({"cls": e["cls"], "pass1": e["pass1"]["res"], "pass2": e["pass2"]["res"],
+        out.update({"cls": e["cls"], "inter": e["inter"], "pass1": e["pass1"]["res"], "pass2": e["pass2"]["res"],
                     "h0": e["h0"][:16], "h1": e["h1"][:16], "h2": e["h2"][:16]})
     else:
         out.update({"present": e["present"], "hpresent": e["hpresent"], "txs": e["txs"], "tv": e["tv"], "cv": e["cv"], "in": e["in"][:80],
@@ -51,9 +51,11 @@ def run(ctx):
         tp = os.path.join(ctx.scratch, "trace%02d.ndjson" % k)
         traces.append(tp)
         argvs.append([drv, "--cases", cp, "--out", tp, "--scratch", os.path.join(ctx.scratch, "run%02d" % k),
-                      "--random", str(40 if quick else 600), "--salt", str(k)])
+                      "--random", str(40 if quick else 600), "--salt", str(k),
+                      "--conc", str((4 if quick else 40) if k < 4 else 0)])
     outs = ctx.run_parallel(argvs)
-    nev = sum(int(o.split("events=")[1].split()[0]) for o in outs)
+    nev = sum(int(o.split(" events=")[1].split()[0]) for o in outs)
+    nconc = sum(int(o.split("conc_passes=")[1].split()[0]) for o in outs)
     # 3. every event judged against the reference in TLA+
     events, tags = judge_traces(ctx, "WireCodecTrace", traces, timeout=1500)
 
@@ -67,7 +69,7 @@ def run(ctx):
     # 4. vacuity and counts
     rt_obj, parse_res, srcs = {}, {}, {}
     prod = nonprod = parsed_objects = 0
-    classes_seen = set()
+    classes_seen, cards, inters = set(), set(), {}
     distinct = set()
     samples, seen = [], set()
     for e in iter_events(traces):
@@ -82,6 +84,9 @@ def run(ctx):
                 rt_obj[k] = rt_obj.get(k, 0) + 1
             for f, c in e["cls"].items():
                 classes_seen.add((k, f, c))
+                if f.startswith("#") and c.isdigit():
+                    cards.add((k, f, int(c)))
+            inters[e["inter"]] = inters.get(e["inter"], 0) + 1
             if k == "header":
                 if e["x"]["Transactions"]["nil"] or e["x"]["EvictedTxs"]["nil"] or e["x"]["ProveValue"]["neg"]:
                     nonprod += 1
@@ -98,9 +103,13 @@ def run(ctx):
                 distinct.add(("b", k, e["in"]))
     for k in KINDS:
         require(rt_obj.get(k, 0) > 20, "hardly any round trip of kind %s completed" % k, ctx=ctx)
-        require(parse_res.get(k, {}).get("object", 0) > 5 and parse_res.get(k, {}).get("error", 0) > 5,
+        require(k == "member" or parse_res.get(k, {}).get("object", 0) > 5 and parse_res.get(k, {}).get("error", 0) > 5,
                 "parser of kind %s: object/error classes not both seen (%s)" % (k, parse_res.get(k)), ctx=ctx)
     require(prod > 50 and nonprod > 5, "producible / arbitrary header values not both exercised (%d, %d)" % (prod, nonprod), ctx=ctx)
+    require(("block", "#txs", 200) in cards and ("block", "#txs", 201) in cards and ("group", "#Members", 10) in cards
+            and ("header", "#EvictedTxs", 200) in cards, "cardinality boundaries not exercised: %s" % sorted(cards)[:8], ctx=ctx)
+    require(inters.get("same-goroutine", 0) > 10 and inters.get("other-goroutine", 0) > 10 and nconc > 5000,
+            "retention / concurrency families hardly ran: %s, %d concurrent passes" % (inters, nconc), ctx=ctx)
     require(len(classes_seen) > 200, "few field classes instantiated (%d)" % len(classes_seen), ctx=ctx)
     require(events == nev, "events judged (%d) != events recorded (%d)" % (events, nev), ctx=ctx)
     coverage = {
@@ -110,7 +119,10 @@ def run(ctx):
                 "value class (nil/empty/zero/typical/extreme/leading-zero/zone/sub-second ...) and %s two-field combinations, each "
                 "run through two real serialise/parse passes; field-presence patterns written with an independent protobuf encoder: all "
                 "2^15 transaction subsets, header subsets with <=%d absent or <=2 present fields plus malformed time fields, group "
-                "header x group subsets, blocks and transaction lists, and the same patterns with odd field contents (signature not 65 bytes, "
+                "header x group subsets, blocks and transaction lists; repeated fields at 0, 1, 2, limit-1, limit, limit+1 elements for the limits "
+                "the node enforces (200 transactions per block, 5..10 group members); a retention family (serialise, keep the bytes, serialise "
+                "another value on the same / another goroutine, then parse the kept bytes) for every Marshal* function incl. Member; a "
+                "concurrency family (8 goroutines serialise and parse different values of a kind at once, GOMAXPROCS all cores and 1); and the same patterns with odd field contents (signature not 65 bytes, "
                 "hashes of the wrong length, non-JSON in JSON-carrying fields, empty prove value); plus seeded random values, random byte strings and mutated "
                 "encodings. distinct_nontrivial: distinct class combinations, distinct presence patterns, and distinct random/mutated "
                 "inputs that were not plain parse errors" % ("selected" if quick else "all", 2 if quick else 3),
@@ -123,6 +135,9 @@ def run(ctx):
         "events_by_source": srcs,
         "tlc_cases": {"class_combinations": nrt, "presence_patterns": npres},
         "field_classes_instantiated": len(classes_seen),
+        "cardinality_points": sorted("%s/%s=%d" % c for c in cards),
+        "round_trips_by_interleaving": inters,
+        "concurrent_passes": nconc,
         "parse_results": parse_res,
         "round_trips_completed": rt_obj,
         "failed_judgements": tags,
